@@ -1,7 +1,7 @@
 #!/bin/sh
 # run every thorough tier once, smallest first; logs under thorough_logs/
 mkdir -p thorough_logs
-for c in C10 C12 C19 C02 C16 C05 C07 C01 C03 C06 C18 C17 C15 C08 C13 C20 C09 C14 C11 C04; do
+for c in C08 C14 C20 C09 C11 C04 C17 C03 C07 C01 C05 C06 C16 C18 C13 C15 C02 C10 C12 C19; do
   start=$(date +%s)
   ./run.sh $c thorough > thorough_logs/$c.log 2>&1
   rc=$?
